@@ -140,36 +140,65 @@ fn check_plan<const N: usize>(plan: &CompactionPlan, frozen: &[bool; N], wp: &[u
     }
 }
 
-/// "a segment that was emptied as a source is not used as a destination (and vice versa)"
+/// Observation only (NOT part of the property statement, asserted by no registered harness): "a
+/// segment that was emptied as a source is not used as a destination".
 fn check_no_reuse(plan: &CompactionPlan, a: usize, b: usize) -> bool {
     let n = plan.moves.len();
     !(a < n && b < n) || plan.moves[b].dest_segment != plan.moves[a].source_segment
 }
 
-/// The part of "a destination's own bytes are respected" that the current planner honours: every
-/// destination other than the plan's first one (the first one is the subject of the live-bytes /
-/// overfill harnesses).  `a` = move index, `d` = segment index, both symbolic.
-fn check_later_destinations<const N: usize>(plan: &CompactionPlan, wp: &[u64; N], size: u64, a: usize, d: usize) {
+/// "Data is never directed onto bytes the destination segment still uses", for EVERY destination:
+/// move `a` (symbolic) must start at or after the destination's own write_position, unless an
+/// earlier move of the plan has already moved that segment's data out entirely (then its old bytes
+/// are no longer live at that point of the plan).  Bytes placed by earlier moves into the same
+/// destination are covered by the pairwise-disjointness check in `check_plan`.
+fn check_live_bytes<const N: usize>(plan: &CompactionPlan, wp: &[u64; N], a: usize) {
     let n = plan.moves.len();
-    if n == 0 {
-        return;
-    }
-    let first = plan.moves[0].dest_segment;
-    if a < n && plan.moves[a].dest_segment != first {
+    if a < n {
         let m = &plan.moves[a];
-        let dd = m.dest_segment as usize;
-        assert!(dd < N && m.dest_offset >= wp[dd], "move into a later destination targets bytes that destination already uses");
-    }
-    if d < N && d != first as usize {
-        let mut incoming = 0u128;
+        let d = m.dest_segment as usize;
+        assert!(d < N, "move names a segment outside the population");
+        let mut emptied = false;
         let mut k = 0;
         while k < N {
-            if k < n && plan.moves[k].dest_segment as usize == d {
-                incoming += plan.moves[k].length as u128;
+            if k < a && k < n && plan.moves[k].source_segment == m.dest_segment {
+                emptied = true;
             }
             k += 1;
         }
-        assert!(incoming == 0 || wp[d] as u128 + incoming <= size as u128, "later destination filled beyond segment_size");
+        if !emptied {
+            assert!(m.dest_offset >= wp[d], "move targets bytes the destination segment still uses (dest_offset < destination's write_position)");
+        }
+    }
+}
+
+/// "A segment is never filled beyond its size", for EVERY segment `d` (symbolic): the bytes it still
+/// holds when the first move into it happens (its write_position, or 0 if the plan emptied it
+/// before) plus everything the plan moves into it fit into segment_size.
+fn check_no_overfill<const N: usize>(plan: &CompactionPlan, wp: &[u64; N], size: u64, d: usize) {
+    let n = plan.moves.len();
+    if d < N {
+        let mut emptied = false;
+        let mut own: Option<u128> = None;
+        let mut incoming = 0u128;
+        let mut k = 0;
+        while k < N {
+            if k < n {
+                if plan.moves[k].dest_segment as usize == d {
+                    if own.is_none() {
+                        own = Some(if emptied { 0 } else { wp[d] as u128 });
+                    }
+                    incoming += plan.moves[k].length as u128;
+                }
+                if plan.moves[k].source_segment as usize == d {
+                    emptied = true;
+                }
+            }
+            k += 1;
+        }
+        if let Some(own) = own {
+            assert!(own + incoming <= size as u128, "destination's own live bytes plus the bytes moved into it exceed segment_size");
+        }
     }
 }
 
@@ -200,7 +229,7 @@ macro_rules! plan_harness {
     };
 }
 
-// ---- everything except the destination's own bytes ----------------------------------------------
+// ---- all clauses of the statement, arbitrary write positions ---------------------------------------
 macro_rules! plan_general {
     ($name:ident, $n:expr, $uw:literal, $size:expr, $thr:expr, $t:expr) => {
         plan_harness!($name, $uw, {
@@ -214,11 +243,8 @@ macro_rules! plan_general {
             let segs = population::<N>(&frozen, &wp);
             let plan = plan_archive_merge(&segs, $thr, SIZE);
             check_plan::<N>(&plan, &frozen, &wp, SIZE, Some(T), a, b);
-            if N <= 4 {
-                // with 5 segments the current planner violates this: see c18_plan_source_reuse_n5_s30_t100
-                assert!(check_no_reuse(&plan, a, b), "segment is both a source and a destination");
-            }
-            check_later_destinations::<N>(&plan, &wp, SIZE, a, b);
+            check_live_bytes::<N>(&plan, &wp, a);
+            check_no_overfill::<N>(&plan, &wp, SIZE, b);
             let elig = count_eligible::<N>(&frozen, &wp, T);
             if elig < 2 {
                 assert!(plan.moves.is_empty(), "fewer than two mergeable segments must give an empty plan");
@@ -236,7 +262,7 @@ macro_rules! plan_general {
 // @bounds N segments (n<N> in the name), state symbolic, write_position symbolic over all u64, segment_size and utilization_threshold concrete per harness (s10/s30/s40 = 2^10/2^30/2^40, t25/t50/t100 = 0.25/0.5/1.0); move indices a,b symbolic (= for all moves / all pairs of moves)
 // @encodes cascette_client_storage::storage::compaction::plan_archive_merge
 // @assumes tracing neutralised (3 stubs); exact std models: alloc::slice::stable_sort -> insertion sort, Vec::new -> with_capacity(8), Vec::push -> push without growth (capacity asserted), <[u16]>::contains -> loop; segment headers = all-zero SegmentHeader (the planner never reads the header); oracle threshold T = threshold*segment_size as an integer (exact: dyadic values below 2^53)
-// @catches move beyond segment_size, overlapping moves into one destination, thawed/empty/high-utilisation segment used as source or destination, source moved twice, source reused as destination, wrong total_bytes, wrong length/offset of a move, stale destination cursor after switching destination, bookkeeping lists out of step with the moves
+// @catches move beyond segment_size, overlapping moves into one destination, thawed/empty/high-utilisation segment used as source or destination, source moved twice, data directed onto bytes a destination still uses (any destination, first included), destination overfilled counting its own bytes, wrong total_bytes, wrong length/offset of a move, stale destination cursor after switching destination, bookkeeping lists out of step with the moves
 plan_general!(c18_plan_general_n3_s10_t25, 3, 5, 1u64 << 10, 0.25, 1u64 << 8);
 plan_general!(c18_plan_general_n3_s10_t100, 3, 5, 1u64 << 10, 1.0, 1u64 << 10);
 plan_general!(c18_plan_general_n3_s30_t50, 3, 5, 1u64 << 30, 0.5, 1u64 << 29);
@@ -245,10 +271,12 @@ plan_general!(c18_plan_general_n3_s40_t25, 3, 5, 1u64 << 40, 0.25, 1u64 << 38);
 plan_general!(c18_plan_general_n3_s40_t50, 3, 5, 1u64 << 40, 0.5, 1u64 << 39);
 // @end
 
-// ---- the destination's own bytes ------------------------------------------------------------------
-// Populations satisfy the representation invariant of real segments (SegmentInfo::new starts the
-// write position behind the 480-byte header, the allocator never moves it beyond the segment), so a
-// counterexample is a population the allocator can produce.
+// ---- the destination's own bytes (regression harnesses for the fixed defect) ----------------------
+// Before /repo commit bcf3404 the first destination's cursor started at 0: the plan overwrote the
+// destination's live bytes and could overfill it.  Populations satisfy the representation invariant
+// of real segments (SegmentInfo::new starts the write position behind the 480-byte header, the
+// allocator never moves it beyond the segment), so a counterexample is a population the allocator
+// can produce.
 macro_rules! plan_live_bytes {
     ($name:ident, $n:expr, $uw:literal, $size:expr, $thr:expr) => {
         plan_harness!($name, $uw, {
@@ -264,12 +292,7 @@ macro_rules! plan_live_bytes {
             }
             let segs = population::<N>(&frozen, &wp);
             let plan = plan_archive_merge(&segs, $thr, SIZE);
-            if a < plan.moves.len() {
-                let m = &plan.moves[a];
-                let d = m.dest_segment as usize;
-                assert!(d < N, "move names a segment outside the population");
-                assert!(m.dest_offset >= wp[d], "KF: move targets bytes the destination segment already uses (dest_offset < destination's write_position)");
-            }
+            check_live_bytes::<N>(&plan, &wp, a);
             kani::cover!(a < plan.moves.len(), "plan has a move");
             std::mem::forget(plan);
             std::mem::forget(segs);
@@ -294,6 +317,7 @@ macro_rules! plan_overfill {
             let plan = plan_archive_merge(&segs, $thr, SIZE);
             let n = plan.moves.len();
             assert!(n < N, "more moves than segments - 1");
+            check_no_overfill::<N>(&plan, &wp, SIZE, d);
             let mut incoming = 0u128;
             let mut k = 0;
             while k < N {
@@ -302,7 +326,6 @@ macro_rules! plan_overfill {
                 }
                 k += 1;
             }
-            assert!(wp[d] as u128 + incoming <= SIZE as u128, "KF: destination's own used bytes plus the bytes moved into it exceed segment_size");
             kani::cover!(incoming > 0, "segment receives data");
             std::mem::forget(plan);
             std::mem::forget(segs);
@@ -314,7 +337,7 @@ macro_rules! plan_overfill {
 // @bounds N segments (n<N>), state symbolic, write_position symbolic in [480 (segment header), segment_size]; segment_size / threshold concrete per harness (s30 = 2^30 = the real SEGMENT_SIZE, t50 = 0.5, t100 = 1.0); move index symbolic
 // @encodes cascette_client_storage::storage::compaction::plan_archive_merge
 // @assumes same stubs/models as merge-plan-general; write positions restricted to what SegmentInfo::new / SegmentAllocator::allocate can produce (>= SEGMENT_HEADER_SIZE, <= segment_size)
-// @catches destination cursor not starting at the destination's write position (data directed onto live bytes), cursor reset to 0 when switching destination
+// @catches destination cursor not starting at the destination's write position (first destination starting at 0: data directed onto live bytes), cursor reset to 0 when switching destination
 plan_live_bytes!(c18_plan_live_bytes_n2_s30_t50, 2, 4, 1u64 << 30, 0.5);
 plan_live_bytes!(c18_plan_live_bytes_n3_s30_t100, 3, 5, 1u64 << 30, 1.0);
 // @end
@@ -340,20 +363,19 @@ plan_general!(c18_plan_general_n4_s40_t25, 4, 6, 1u64 << 40, 0.25, 1u64 << 38);
 // @family prop=C18 tier=quick timeout=900 mem=16 role=merge-plan-general-n5
 // @bounds 5 segments (smallest population in which a second destination receives a move), state symbolic, write_position symbolic over all u64, segment_size / threshold concrete per harness; move indices symbolic
 // @encodes cascette_client_storage::storage::compaction::plan_archive_merge
-// @assumes same stubs/models as merge-plan-general; "source never reused as destination" is not asserted here (own harness, fails on the current tree)
+// @assumes same stubs/models as merge-plan-general; a segment the plan has already emptied counts as having no live bytes when it is reused as a destination
 // @catches as merge-plan-general, plus: cursor of a later destination not starting at that destination's write_position (reset to 0 / stale value of the previous destination), later destination overfilled
 plan_general!(c18_plan_general_n5_s30_t100, 5, 7, 1u64 << 30, 1.0, 1u64 << 30);
 plan_general!(c18_plan_general_n5_s10_t50, 5, 7, 1u64 << 10, 0.5, 1u64 << 9);
 // @end
 
-// ---- a segment emptied as a source must not become a destination -----------------------------------
-// Needs 5 segments in the current planner: two moves into the first destination, one source that
-// does not fit (destination switches to sources[1], which was already moved away), one more move.
-// @harness prop=C18 tier=quick timeout=900 mem=16 role=merge-plan-source-reuse
-// @bounds 5 segments, state symbolic, write_position symbolic in [480, 2^30], segment_size 2^30, threshold 1.0; move indices symbolic
-// @encodes cascette_client_storage::storage::compaction::plan_archive_merge
-// @assumes same stubs/models as merge-plan-general; write positions >= SEGMENT_HEADER_SIZE and <= segment_size
-// @catches destination cursor advancing onto a segment that an earlier move already emptied (its data would be moved into a segment scheduled for deletion / data moved twice)
+// ---- observation, outside the property statement (NOT registered) ------------------------------------
+// A segment emptied as a source can later become a destination: when a source does not fit, the
+// destination advances to sources[dest_idx + 1], which an earlier move may already have moved away
+// (5 segments before the cursor fix, 4 after it).  The property statement does not forbid this (the
+// reused segment's old bytes are no longer live), so no registered check asserts it; the harness is
+// kept without its registration annotation for reference.  Fails by design: cargo kani --harness
+// c18_plan::c18_plan_source_reuse_n5_s30_t100.
 plan_harness!(c18_plan_source_reuse_n5_s30_t100, 7, {
     const N: usize = 5;
     const SIZE: u64 = 1 << 30;
@@ -368,7 +390,7 @@ plan_harness!(c18_plan_source_reuse_n5_s30_t100, 7, {
     }
     let segs = population::<N>(&frozen, &wp);
     let plan = plan_archive_merge(&segs, 1.0, SIZE);
-    assert!(check_no_reuse(&plan, a, b), "KF: segment emptied as the source of one move is the destination of another move");
+    assert!(check_no_reuse(&plan, a, b), "observation: segment emptied as the source of one move is the destination of another move");
     kani::cover!(plan.moves.len() >= 3, "plan with three moves");
     std::mem::forget(plan);
     std::mem::forget(segs);
@@ -393,7 +415,8 @@ plan_harness!(c18_plan_symbolic_config_n3, 5, {
     let segs = population::<N>(&frozen, &wp);
     let plan = plan_archive_merge(&segs, thr, size);
     check_plan::<N>(&plan, &frozen, &wp, size, None, a, b);
-    assert!(check_no_reuse(&plan, a, b), "segment is both a source and a destination");
+    check_live_bytes::<N>(&plan, &wp, a);
+    check_no_overfill::<N>(&plan, &wp, size, b);
     kani::cover!(plan.moves.len() == N - 1 && size % 1000 == 7, "two moves with a non power-of-two size");
     std::mem::forget(plan);
     std::mem::forget(segs);
@@ -402,7 +425,7 @@ plan_harness!(c18_plan_symbolic_config_n3, 5, {
 // @harness prop=C18 tier=thorough timeout=3000 mem=24 role=merge-plan-symbolic-config-n5
 // @bounds 5 segments, state and write_position symbolic, segment_size symbolic in [1, 2^40], utilization_threshold symbolic finite f64 in (0, 1]; move and segment indices symbolic
 // @encodes cascette_client_storage::storage::compaction::plan_archive_merge
-// @assumes as merge-plan-symbolic-config; "source never reused as destination" not asserted (own harness)
+// @assumes as merge-plan-symbolic-config
 // @catches as merge-plan-general-n5 for arbitrary sizes and thresholds
 plan_harness!(c18_plan_symbolic_config_n5, 7, {
     const N: usize = 5;
@@ -417,7 +440,8 @@ plan_harness!(c18_plan_symbolic_config_n5, 7, {
     let segs = population::<N>(&frozen, &wp);
     let plan = plan_archive_merge(&segs, thr, size);
     check_plan::<N>(&plan, &frozen, &wp, size, None, a, b);
-    check_later_destinations::<N>(&plan, &wp, size, a, b);
+    check_live_bytes::<N>(&plan, &wp, a);
+    check_no_overfill::<N>(&plan, &wp, size, b);
     kani::cover!(plan.moves.len() == 3 && plan.target_segments.len() == 2, "two destinations in one plan");
     std::mem::forget(plan);
     std::mem::forget(segs);
